@@ -108,12 +108,12 @@ def eval_obligations(ctx):
     """evaluate every generated side condition separately so that a broken obligation is named precisely"""
     src = ("From Coq Require Import List.\nFrom Cocls Require Import RADefs LocksetDefs.\nFrom Cocls.gen Require Import SyncGen.\n"
            "Eval vm_compute in (complete, P1.ok (P1.bits_of orders), P2.ok (P2.bits_future orders), P2.ok (P2.bits_signal orders),"
-           " P2.ok (P2.bits_mutex orders), P4.ok (P4.bits_of orders), P5.ok (P5.bits_of orders),"
+           " P2.ok (P2.bits_mutex orders), P3.ok (P3.bits_of orders), P4.ok (P4.bits_of orders), P5.ok (P5.bits_of orders),"
            " no_touch_after_publish_subcr, no_touch_after_publish_mutex_subscribe, map class_ok skeletons).\n")
     path = os.path.join(ctx.tmp, "c03_eval.v")
     open(path, "w").write(src)
     rc, o, e = vlib.sh("timeout 120 coqc -Q %s Cocls %s" % (vlib.COQ, path), cwd=ctx.tmp, timeout=150)
-    names = ["complete", "p1", "p2_future", "p2_signal", "p2_mutex", "p4", "p5", "touch_subcr", "touch_mutex"]
+    names = ["complete", "p1", "p2_future", "p2_signal", "p2_mutex", "p3", "p4", "p5", "touch_subcr", "touch_mutex"]
     vals = re.findall(r"\b(true|false)\b", o.split(":")[0] if rc == 0 else "")
     res = {}
     if rc != 0 or len(vals) < len(names):
@@ -148,7 +148,7 @@ def extra(ctx):
         return
     broken = [k for k, v in res.items() if not v]
     label = {"complete": "c03_translator_complete", "p1": "c03_p1_orders_ok", "p2_future": "c03_p2_future_orders_ok",
-             "p2_signal": "c03_p2_signal_orders_ok", "p2_mutex": "c03_p2_mutex_orders_ok", "p4": "c03_p4_orders_ok",
+             "p2_signal": "c03_p2_signal_orders_ok", "p2_mutex": "c03_p2_mutex_orders_ok", "p3": "c03_p3_orders_ok", "p4": "c03_p4_orders_ok",
              "p5": "c03_p5_orders_ok", "touch_subcr": "c03_no_touch_after_publish", "touch_mutex": "c03_no_touch_after_publish",
              "lockset": "c03_guarded_state"}
     for b in broken:
